@@ -81,9 +81,12 @@ CHECKS = {
     "C06": {
         "title": "a concurrent insert is seen by the scan or invalidates its version set",
         "quick": [run("conc_phantom_scan", "conc-plain", mode="phantom", cursor=0, prop="C06", rounds=4000, repeat=2),
-                  run("conc_phantom_scan_asan", "conc-asan", mode="phantom", cursor=0, prop="C06", rounds=600)],
+                  run("conc_phantom_scan_asan", "conc-asan", mode="phantom", cursor=0, prop="C06", rounds=600),
+                  run("conc_phantom_micro_scan", "conc-plain", mode="phantom_micro", cursor=0, prop="C06", races=600000, repeat=2)],
         "thorough": [run("conc_phantom_scan", "conc-plain", mode="phantom", cursor=0, prop="C06", rounds=300000, repeat=6, timeout=3400),
-                     run("conc_phantom_scan_asan", "conc-asan", mode="phantom", cursor=0, prop="C06", rounds=30000, repeat=2, timeout=3400)],
+                     run("conc_phantom_scan_asan", "conc-asan", mode="phantom", cursor=0, prop="C06", rounds=30000, repeat=2, timeout=3400),
+                     run("conc_phantom_micro_scan", "conc-plain", mode="phantom_micro", cursor=0, prop="C06", races=40000000, repeat=6, timeout=3400),
+                     run("conc_phantom_micro_scan_asan", "conc-asan", mode="phantom_micro", cursor=0, prop="C06", races=3000000, repeat=2, timeout=3400)],
         "parallel": {"quick": 1, "thorough": 2},
     },
     "C07": {
@@ -116,17 +119,19 @@ CHECKS = {
     },
     "C10": {
         "title": "cursor API enumerates the interval in both directions",
-        "quick": [run("seq_iscan", "seq-asan", mode="iscan", prop="C10", trees=500, cursors=60, steppers=20, repeat=3),
+        "quick": [run("seq_iscan", "seq-asan", mode="iscan", prop="C10", trees=500, cursors=60, steppers=20, bursts=12, repeat=3),
                   run("conc_iscan_single_layer", "conc-plain", mode="scan", cursor=1, scenario="flat", prop="C10", rounds=1200),
-                  run("conc_iscan_layers", "conc-plain", mode="scan", cursor=1, scenario="layers", prop="C10", rounds=400),
+                  run("conc_iscan_layers", "conc-plain", mode="scan", cursor=1, scenario="layers", prop="C10", rounds=600),
                   run("conc_iscan_asan", "conc-asan", mode="scan", cursor=1, scenario="flat", prop="C10", rounds=150),
-                  run("conc_phantom_iscan", "conc-plain", mode="phantom", cursor=1, prop="C10", rounds=1500)],
+                  run("conc_phantom_iscan", "conc-plain", mode="phantom", cursor=1, prop="C10", rounds=1500),
+                  run("conc_phantom_micro_iscan", "conc-plain", mode="phantom_micro", cursor=1, prop="C10", races=120000)],
         "thorough": [run("seq_iscan_memcheck", "seq-plain", mode="iscan", prop="C10", trees=150, cursors=40, steppers=10, wrapper="memcheck", repeat=4, timeout=3400),
                      run("seq_iscan", "seq-asan", mode="iscan", prop="C10", trees=30000, cursors=100, steppers=40, repeat=12, timeout=3400),
                      run("conc_iscan_single_layer", "conc-plain", mode="scan", cursor=1, scenario="flat", prop="C10", rounds=40000, repeat=4, timeout=3400),
                      run("conc_iscan_layers", "conc-plain", mode="scan", cursor=1, scenario="layers", prop="C10", rounds=20000, repeat=2, timeout=3400),
                      run("conc_iscan_asan", "conc-asan", mode="scan", cursor=1, scenario="flat", prop="C10", rounds=6000, repeat=2, timeout=3400),
-                     run("conc_phantom_iscan", "conc-plain", mode="phantom", cursor=1, prop="C10", rounds=150000, repeat=2, timeout=3400)],
+                     run("conc_phantom_iscan", "conc-plain", mode="phantom", cursor=1, prop="C10", rounds=150000, repeat=2, timeout=3400),
+                     run("conc_phantom_micro_iscan", "conc-plain", mode="phantom_micro", cursor=1, prop="C10", races=8000000, repeat=4, timeout=3400)],
         "parallel": {"quick": 1, "thorough": 2},
     },
     "C11": {
